@@ -40,7 +40,7 @@ def sample(ctx, seq, k):
 
 def absent_lrus(ctx, k=8):
     m = ctx.model
-    base = sorted(m.nodes)
+    base = sorted(x for x in m.nodes if x.endswith(b"|"))
     out = []
     tries = 0
     while base and len(out) < k and tries < k * 5:
